@@ -153,7 +153,7 @@ def fold(prop, tier, seed, results, mod_meta, wall, timed_out, crashed):
     # starvation: every deciding monitor must have been reached
     scale = mod_meta.get('scale', {}).get(tier, 1)
     starved = []
-    for m, need in mod_meta.get('require', {}).items():
+    for m, need in ({} if mod_meta.get('_replay') else mod_meta.get('require', {})).items():
         need = need * scale if m not in mod_meta.get('noscale', ()) else need
         got = counters.get(m, 0) if not m.startswith('hist:') else sum(hist.get(m[5:], {}).values())
         if m.startswith('nontrivial'):
@@ -251,6 +251,7 @@ def main(argv=None):
         tier = rp.get('tier', tier)
         seed = rp.get('seed', seed)
         nshards = 1
+        meta = dict(meta, _replay=True)
     else:
         nshards = a.shards or meta.get('shards', {}).get(tier, 8 if tier == 'quick' else 16)
     timeout = meta.get('timeout', {}).get(tier, 900 if tier == 'quick' else 3600)
